@@ -7,6 +7,11 @@ GT = "./internal/mysql/gtids"
 OPT = "./internal/app/optimization"
 
 REGISTRY = {
+    "C11": dict(
+        level="exploration",
+        units=[dict(pkg=APP, test="TestVerifC11Check", quick=4800, thorough=200000, shards_quick=16, shards_thorough=16),
+               dict(pkg=APP, test="TestVerifC11Sim", quick=1200, thorough=40000, shards_quick=16, shards_thorough=16)],
+    ),
     "C10": dict(
         level="exploration",
         units=[dict(pkg=APP, test="TestVerifC10", quick=2400, thorough=60000, shards_quick=16, shards_thorough=16),
